@@ -25,6 +25,7 @@ from xml.dom import minidom
 
 from . import common as C
 from . import xmlschema_ref as X
+from . import c15_values as V
 
 PROP = "C15"
 PROPS_MODULES = ["AsyncFix.Props.C15", "AsyncFix.Props.C15Resolve"]
@@ -38,6 +39,17 @@ ASSUMPTIONS = [
     "counters acceptable to SchemaSet.__init__, message types distinct) is evaluated by the compiled driver on the "
     "abstract schema of both dictionaries every run (reported under coverage.branches.schemaWF)",
     "tag 10 (CheckSum) is exempt in the specification as in the code: it is the framing layer's field (C01/C02/C10)",
+    "ground truth of a VALUE for the oracle: the enumeration, and for non-enumerated fields the hand-labelled near-valid pool "
+    "of harness/c15_values.py (FIX 4.4 datatype table; grey areas that are open C19 findings left out); only values outside the "
+    "pool fall back to the library's own verdict. The Lean model always takes the library's verdict (vv is a parameter), so a "
+    "value-level defect shows in the oracle, not in the correspondence",
+    "the model's message is the abstract tree; that every way of assembling it through the FIXContainer API (constructor dict, "
+    "set, set(replace=True), __setitem__, add_group / set_group with dicts or containers, del, int/float/Decimal/enum/str-subclass "
+    "values, int or str tags) stores that tree is C18's subject - here it is covered by correspondence/oracle only (5 recipes on a "
+    "sample of every run, signature C15-verdict-depends-on-construction:<recipe>)",
+    "message size is unbounded in the theorems; the correspondence includes groups of 300 (thorough 1500) items and the deepest "
+    "message type with every group multiplied at every level; two FIXSchema instances over the two dictionaries are alive and "
+    "used alternately in one pass (signature C15-verdict-depends-on-other-instance)",
     "the model is a pure function of (dictionary, message); that FIXSchema.validate keeps no state between calls is not a "
     "theorem but is checked every run: targeted 'valid in field A / invalid in field B' value pairs and a sample of all cases are "
     "re-validated on fresh instances in same / reversed / shuffled order (signature C15-verdict-depends-on-history)",
@@ -78,6 +90,16 @@ class Loaded:
         self.hdr = set(self.ref.header_tags())
         self.trl = set(X.member_tags(self.ref.trailer))
         self._vcache = {}
+
+    def valid(self, tag, value):
+        """ground truth used by the oracle: the hand-labelled pool / the enumeration where they decide
+        (independent of the library), otherwise the library's own verdict"""
+        f = self.ref.by_tag.get(tag)
+        if f is not None:
+            lab = V.label(f.ftype, f.enums, tag, value)
+            if lab is not None:
+                return lab
+        return self.verdict(tag, value) is True
 
     def verdict(self, tag, value):
         """what the real validate_value says: True / False (FIXMessageError) / 'assert' / 'exc:..'"""
@@ -124,35 +146,139 @@ def _cls(kind):
     return {"n": TagNotFoundError, "r": RepeatingTagError, "o": ValueError}[kind]
 
 
-def _fill(cont, nodes):
+RECIPES = ["set-str", "ctor-dict-native", "setitem-native", "set-replace-native", "del-reset-native", "str-subclass"]
+
+
+class _S(str):
+    """a str subclass (values handed over by other libraries are often one)"""
+
+
+def native(value, recipe):
+    """a non-str Python object whose str() is `value` (int, float, Decimal), else the string itself;
+    deterministic in (value, recipe)"""
+    import decimal
+
+    if recipe == "str-subclass":
+        return _S(value)
+    cands = []
+    try:
+        if str(int(value)) == value:
+            cands.append(int(value))
+    except ValueError:
+        pass
+    try:
+        if repr(float(value)) == value:
+            cands.append(float(value))
+    except ValueError:
+        pass
+    try:
+        if str(decimal.Decimal(value)) == value and not cands:
+            cands.append(decimal.Decimal(value))
+    except (decimal.InvalidOperation, ValueError):
+        pass
+    if not cands:
+        return value
+    return cands[(len(value) + len(recipe)) % len(cands)]
+
+
+def _key(tag, alt):
+    return int(tag) if alt and tag.isascii() and tag.isdigit() and str(int(tag)) == tag else tag
+
+
+def _as_dict(nodes, recipe):
+    d = {}
+    for k, n in enumerate(nodes):
+        key = _key(n[1], k % 2 == 0)
+        if n[0] == "p":
+            d[key] = native(n[2], recipe)
+        elif n[0] == "c":
+            d[key] = _cls(n[2])
+        else:
+            d[key] = [_as_dict(it, recipe) if j % 2 == 0 else _container(it, recipe) for j, it in enumerate(n[2])]
+    return d
+
+
+def _container(nodes, recipe):
     from asyncfix.message import FIXContainer
 
-    for n in nodes:
-        if n[0] == "p":
-            cont.set(n[1], n[2])
-        elif n[0] == "c":
-            cont.set(n[1], _cls(n[2]))
+    c = FIXContainer()
+    _fill(c, nodes, recipe)
+    return c
+
+
+def _fill(cont, nodes, recipe="set-str"):
+    for k, n in enumerate(nodes):
+        tag = n[1]
+        if n[0] == "c":
+            cont.set(tag, _cls(n[2]))
+        elif n[0] == "p":
+            if recipe == "set-str":
+                cont.set(tag, n[2])
+            elif recipe in ("setitem-native", "str-subclass"):
+                cont[_key(tag, k % 2 == 1)] = native(n[2], recipe)
+            elif recipe == "set-replace-native":
+                cont.set(tag, "~placeholder~")
+                cont.set(_key(tag, True), native(n[2], recipe), replace=True)
+            elif recipe == "del-reset-native":
+                cont.set(tag, "~junk~")
+                del cont[_key(tag, True)]
+                cont.set(_key(tag, True), native(n[2], recipe))
+            else:
+                cont.set(tag, native(n[2], recipe))
         else:
-            items = []
-            for it in n[2]:
-                c = FIXContainer()
-                _fill(c, it)
-                items.append(c)
-            cont.set_group(n[1], items)
+            items = n[2]
+            if recipe == "set-str" or not items:
+                cont.set_group(tag, [_container(it, recipe) for it in items])
+            elif recipe == "setitem-native":
+                for j, it in enumerate(items):
+                    cont.add_group(_key(tag, True), _as_dict(it, recipe) if j % 2 else _container(it, recipe))
+            elif recipe == "del-reset-native":
+                cont.set_group(tag, [{}])
+                del cont[tag]
+                for it in reversed(items):
+                    cont.add_group(tag, _container(it, recipe), index=0)
+            else:
+                cont.set_group(_key(tag, True), [_as_dict(it, recipe) if j % 2 == 0 else _container(it, recipe)
+                                                 for j, it in enumerate(items)])
 
 
-def build_fix(msgtype, nodes):
-    from asyncfix import FIXMessage
+def build_fix(msgtype, nodes, recipe="set-str"):
+    from asyncfix import FIXMessage, FMsg
 
+    if recipe == "ctor-dict-native":
+        mt = msgtype
+        try:
+            mt = FMsg(msgtype)          # enum member instead of the plain string
+        except Exception:  # noqa
+            pass
+        return FIXMessage(mt, _as_dict(nodes, recipe))
     m = FIXMessage(msgtype)
-    _fill(m, nodes)
+    _fill(m, nodes, recipe)
     return m
 
 
-def impl_outcome(ld, msgtype, nodes):
+def dump_container(cont):
+    """what the container really holds (for diagnosis): same shape as the neutral tree"""
+    from asyncfix.message import _FIXRepeatingGroupContainer
+
+    out = []
+    for t, v in cont.tags.items():
+        if isinstance(v, _FIXRepeatingGroupContainer):
+            out.append(["g", t, [dump_container(c) for c in v.groups]])
+        elif isinstance(v, str):
+            out.append(["p", t, str(v)])
+        else:
+            out.append(["?", t, repr(v)])
+    return out
+
+
+def impl_outcome(ld, msgtype, nodes, recipe="set-str"):
     from asyncfix.errors import FIXMessageError
 
-    m = build_fix(msgtype, nodes)
+    try:
+        m = build_fix(msgtype, nodes, recipe)
+    except Exception as e:  # noqa
+        return "build-exc:" + type(e).__name__
     try:
         with warnings.catch_warnings():
             warnings.simplefilter("ignore")
@@ -228,7 +354,7 @@ def node_ok(ld, mem, n):
             return False, "group-or-object-for-field"
         if n[2] == "":
             return False, "empty-value"
-        if ld.verdict(mem[1], n[2]) is not True:
+        if not ld.valid(mem[1], n[2]):
             return False, "invalid-value"
         return True, ""
     if n[0] != "g":
@@ -326,6 +452,9 @@ for _t in ("FLOAT", "QTY", "PRICE", "PRICEOFFSET", "AMT", "PERCENTAGE"):
 
 
 def valid_value(ld, f, rng):
+    pool = [v for v, lab in V.POOL.get(f.ftype.upper(), {}).items() if lab] if not f.enums else []
+    if pool and rng.random() < 0.4:
+        return rng.choice(pool)          # boundary values; truth = the label, not the library's verdict
     if f.enums:
         cands = [rng.choice(f.enums)]
     else:
@@ -339,7 +468,12 @@ def valid_value(ld, f, rng):
 
 
 def invalid_value(ld, f, rng):
-    cands = ["?!"] if f.enums else list(INVALID.get(f.ftype.upper(), []))
+    if f.enums:
+        return rng.choice(V.enum_near(f.enums))
+    pool = [v for v, lab in V.POOL.get(f.ftype.upper(), {}).items() if not lab and V.label(f.ftype, f.enums, f.tag, v) is False]
+    if pool:
+        return rng.choice(pool)          # near-valid value, invalid by the label
+    cands = list(INVALID.get(f.ftype.upper(), []))
     rng.shuffle(cands)
     for c in cands:
         if ld.verdict(f.tag, c) is False:
@@ -565,7 +699,17 @@ POOL = ["0", "1", "-1", "00", "7", "31", "32", "Y", "N", "A", "abc", "a b", "1.5
 
 def find_path(ld, tag):
     """(message, [group tags]) of a place where the field `tag` can legally occur, shallowest first"""
-    if tag in ld.hdr or tag in ld.trl:
+    cache = ld.__dict__.setdefault("_paths", {})
+    if tag not in cache:
+        cache[tag] = _find_path(ld, tag)
+    return cache[tag]
+
+
+def _find_path(ld, tag):
+    hm = _find(ld.ref.header, tag)[1] or _find(ld.ref.trailer, tag)[1]
+    if hm is not None and hm[0] != "f":
+        return None
+    if hm is not None:
         for msg in ld.ref.messages:
             if not any(m[3] for m in msg.members):
                 return msg, []
@@ -716,11 +860,50 @@ def history_runs(ctx):
         for name, order in orders.items():
             runs.append({"dict": dn, "order": name, "idx": order, "out": run_sequence(ld, [cases[i] for i in order])})
         # every targeted pair on its own fresh instance, both orders
-        for a, b in zip(targeted[0::2], targeted[1::2]):
+        npairs = ctx.n(40, 400)
+        for a, b in list(zip(targeted[0::2], targeted[1::2]))[:npairs]:
             for name, order in (("pair-AB", [a, b]), ("pair-BA", [b, a])):
                 runs.append({"dict": dn, "order": name, "idx": order, "out": run_sequence(ld, [cases[i] for i in order])})
     ctx._c15_hist = runs
     return runs
+
+
+def construction_runs(ctx):
+    """C dimension: the same abstract message built through other histories of container operations and with
+    non-str values the API converts -> list of (case index, recipe, outcome)"""
+    if getattr(ctx, "_c15_constr", None) is not None:
+        return ctx._c15_constr
+    cases = build_cases(ctx)
+    rng = random.Random(f"C15-construction/{ctx.seed}")
+    idxs = [i for i, c in enumerate(cases) if not c["cls"].startswith("large-")]
+    sample = rng.sample(idxs, min(len(idxs), ctx.n(700, 7000)))
+    out = []
+    for i in sample:
+        c = cases[i]
+        ld = load(c["dict"])
+        for r in RECIPES[1:]:
+            out.append((i, r, impl_outcome(ld, c["msgtype"], c["nodes"], r)))
+    ctx._c15_constr = out
+    return out
+
+
+def interleaved_run(ctx):
+    """two FIXSchema instances over the two dictionaries alive at once, validations alternating between them"""
+    if getattr(ctx, "_c15_inter", None) is not None:
+        return ctx._c15_inter
+    cases = build_cases(ctx)
+    rng = random.Random(f"C15-interleave/{ctx.seed}")
+    per = {dn: [i for i, c in enumerate(cases) if c["dict"] == dn and not c["cls"].startswith("large-")] for dn in DICTS}
+    k = min(ctx.n(300, 3000), *[len(v) for v in per.values()])
+    picks = {dn: rng.sample(v, k) for dn, v in per.items()}
+    fresh = {dn: Fresh(load(dn)) for dn in DICTS}
+    out = []
+    for j in range(k):
+        for dn in DICTS:
+            i = picks[dn][j]
+            out.append((i, impl_outcome(fresh[dn], cases[i]["msgtype"], cases[i]["nodes"])))
+    ctx._c15_inter = out
+    return out
 
 
 def shrink_history(ld, cases, order, pos, alone):
@@ -736,6 +919,76 @@ def shrink_history(ld, cases, order, pos, alone):
             return [cases[j]], out[1]
     out = run_sequence(ld, [cases[j] for j in order[:pos]] + [k])
     return [cases[j] for j in order[:pos]], out[-1]
+
+
+def value_pool_cases(ctx, ld, rng):
+    """V dimension: every labelled near-valid value of every datatype, as the single possibly faulty value of
+    an otherwise minimal valid message; rare datatypes get every field, the others a seeded choice"""
+    out = []
+    by_type = {}
+    for f in ld.ref.fields:
+        if not f.enums and f.ftype.upper() in V.POOL and f.tag not in ("8", "9", "35", "10") and find_path(ld, f.tag):
+            by_type.setdefault(f.ftype.upper(), []).append(f)
+    for t, fs in sorted(by_type.items()):
+        top = [f for f in fs if not find_path(ld, f.tag)[1]]
+        deep = [f for f in fs if find_path(ld, f.tag)[1]]
+        for v, lab in V.POOL[t].items():
+            chosen = fs if len(fs) <= ctx.n(3, 8) else ([rng.choice(top)] if top else []) + ([rng.choice(deep)] if deep else [])
+            if ctx.tier == "thorough" and len(fs) > 8:
+                chosen = chosen + rng.sample(fs, 4)
+            for f in chosen:
+                truth = V.label(f.ftype, f.enums, f.tag, v)
+                inst = instance_with(ld, f.tag, v, rng)
+                if inst is None or truth is None:
+                    continue
+                depth = len(find_path(ld, f.tag)[1])
+                out.append({"dict": ld.name, "msgtype": inst[0], "nodes": inst[1], "depth": depth,
+                            "cls": ("value-pool-valid:" if truth else "value-pool-invalid:") + t})
+    en = [f for f in ld.ref.fields if f.enums and f.tag not in ("35",) and find_path(ld, f.tag)]
+    for f in rng.sample(en, min(len(en), ctx.n(40, 400))):
+        for v in rng.sample(V.enum_near(f.enums), 2) + [f.enums[0], f.enums[-1]]:
+            inst = instance_with(ld, f.tag, v, rng)
+            if inst is not None:
+                out.append({"dict": ld.name, "msgtype": inst[0], "nodes": inst[1], "depth": len(find_path(ld, f.tag)[1]),
+                            "cls": "value-pool-valid:ENUM" if v in f.enums else "value-pool-invalid:ENUM"})
+    return out
+
+
+def _multiply(nodes, k):
+    for n in nodes:
+        if n[0] == "g" and n[2]:
+            n[2][:] = [copy.deepcopy(it) for it in n[2] for _ in range(k)]
+            for it in n[2]:
+                _multiply(it, k)
+
+
+def large_cases(ctx, ld, rng):
+    """S dimension: hundreds of items in one group; every group of the deepest message multiplied at every level"""
+    out = []
+    msgs = sorted(ld.ref.messages, key=lambda m: -X.depth(m.members))
+    for msg in msgs[: ctx.n(1, 2)]:
+        base = gen_valid(ld, msg, rng, want_depth=X.depth(msg.members))
+        wide = copy.deepcopy(base)
+        g = next((n for n in wide if n[0] == "g" and n[2]), None)
+        if g is not None:
+            g[2][:] = [copy.deepcopy(g[2][0]) for _ in range(ctx.n(300, 1500))]
+            out.append({"dict": ld.name, "msgtype": msg.msgtype, "nodes": wide, "cls": "large-wide-valid", "depth": 1})
+            bad = copy.deepcopy(wide)
+            bad[bad.index(next(n for n in bad if n[0] == "g" and n[2]))][2][-1].pop(0)
+            out.append({"dict": ld.name, "msgtype": msg.msgtype, "nodes": bad, "cls": "large-wide-last-item-first-missing", "depth": 1})
+            bad = copy.deepcopy(wide)
+            bad[bad.index(next(n for n in bad if n[0] == "g" and n[2]))][2][len(g[2]) // 2].insert(0, ["p", "99999", "x"])
+            out.append({"dict": ld.name, "msgtype": msg.msgtype, "nodes": bad, "cls": "large-wide-middle-item-unknown-tag", "depth": 1})
+        deep = copy.deepcopy(base)
+        _multiply(deep, ctx.n(3, 4))
+        out.append({"dict": ld.name, "msgtype": msg.msgtype, "nodes": deep, "cls": "large-deep-valid", "depth": X.depth(msg.members)})
+        sites = [s_ for s_ in iter_items(deep, msg.members) if s_[0] == X.depth(msg.members) and len(s_[2]) >= 1]
+        if sites:
+            bad = copy.deepcopy(deep)
+            at_path(bad, sites[-1][3]).pop(0)
+            out.append({"dict": ld.name, "msgtype": msg.msgtype, "nodes": bad, "cls": "large-deep-last-leaf-first-missing",
+                        "depth": X.depth(msg.members)})
+    return out
 
 
 def build_cases(ctx):
@@ -754,6 +1007,8 @@ def build_cases(ctx):
     allpos = ctx.tier == "thorough"
     for dn in DICTS:
         cases += history_cases(ctx, load(dn), rng)
+        cases += value_pool_cases(ctx, load(dn), rng)
+        cases += large_cases(ctx, load(dn), rng)
     for dn in DICTS:
         ld = load(dn)
         for msg in ld.ref.messages:
@@ -785,8 +1040,14 @@ def impl_all(ctx):
 # ---------------------------------------------------------------------------------------------
 # parser / resolver checks
 # ---------------------------------------------------------------------------------------------
+_dom_cache = {}
+
+
 def permuted_xml(path, rng, mode="shuffle"):
-    dom = minidom.parse(path)
+    # the DOM is parsed once and re-ordered in place for every permutation
+    if path not in _dom_cache:
+        _dom_cache[path] = minidom.parse(path)
+    dom = _dom_cache[path]
     comps = [c for c in dom.documentElement.childNodes if c.nodeType == c.ELEMENT_NODE and c.tagName == "components"]
     if comps:
         node = comps[0]
@@ -852,8 +1113,8 @@ def _show_rmems(ms):
     return out
 
 
-def resolver_check(drv, path, label):
-    """library parse vs resolver model on one XML file -> (n_evals, disagreements, outcome)"""
+def resolver_job(path, label):
+    """driver lines for one XML file + what the library made of it (computed now: the file may be temporary)"""
     comps, header, msgs = raw_decls(path)
     lines = ["sch.rreset"]
     for n, raw in comps:
@@ -866,19 +1127,24 @@ def resolver_check(drv, path, label):
         out = ["sch.rexpand"]
         _tok_decls(raw, out)
         lines.append(" ".join(out))
-    rep = drv.batch(lines)
-    k = 1 + len(comps)
-    model_res = rep[k]
     outcome, lib = lib_parse(path)
-    dis = []
+    job = {"label": label, "lines": lines, "k": 1 + len(comps), "outcome": outcome, "bodies": [nm for nm, _ in bodies]}
     if outcome == "ok":
-        want = "ok " + " ".join([str(len(lib._components))] + sum(
+        job["want_components"] = "ok " + " ".join([str(len(lib._components))] + sum(
             ([C.hx(n)] + _show_rmems(X.lib_members(c)) for n, c in lib._components.items()), []))
-        if model_res != want:
-            dis.append({"input": label, "model": model_res[:300], "impl": want[:300], "what": "components (insertion order, members)"})
-        libm = [("header", X.lib_members(lib._header))] + [(m.name, X.lib_members(m)) for m in lib._messages.values()]
-        for (nm, _), r, (ln, lm) in zip(bodies, rep[k + 1:], libm):
-            want = "ok " + " ".join(_show_rmems(lm))
+        libm = [X.lib_members(lib._header)] + [X.lib_members(m) for m in lib._messages.values()]
+        job["want_bodies"] = ["ok " + " ".join(_show_rmems(lm)) for lm in libm]
+    return job
+
+
+def resolver_finish(job, rep):
+    k, label, dis = job["k"], job["label"], []
+    model_res = rep[k]
+    if job["outcome"] == "ok":
+        if model_res != job["want_components"]:
+            dis.append({"input": label, "model": model_res[:300], "impl": job["want_components"][:300],
+                        "what": "components (insertion order, members)"})
+        for nm, r, want in zip(job["bodies"], rep[k + 1:], job["want_bodies"]):
             if r != want:
                 dis.append({"input": f"{label}:{nm}", "model": r[:300], "impl": want[:300], "what": "expanded body"})
                 break
@@ -887,15 +1153,22 @@ def resolver_check(drv, path, label):
         # a message body that cannot be expanded is an AssertionError in _parse_message
         if got == "ok" and any(r == "fail" for r in rep[k + 1:]):
             got = "assertion"
-        if got != outcome:
-            dis.append({"input": label, "model": model_res[:300], "impl": outcome, "what": "parse outcome"})
-    return len(lines), dis, outcome
+        if got != job["outcome"]:
+            dis.append({"input": label, "model": model_res[:300], "impl": job["outcome"], "what": "parse outcome"})
+    return dis
+
+
+def resolver_check(drv, path, label):
+    """library parse vs resolver model on one XML file -> (n_evals, disagreements, outcome)"""
+    job = resolver_job(path, label)
+    return len(job["lines"]), resolver_finish(job, drv.batch(job["lines"])), job["outcome"]
 
 
 def parser_checks(ctx, drv):
     """reader vs library on both dictionaries, permutations, resolver model; returns stats + disagreements"""
     rng = ctx.rng
     dis, stats = [], {"views_compared": 0, "permutations": 0, "resolver_lines": 0, "corpus_xml": {}, "perm_validations": 0}
+    jobs = []
     tmp = tempfile.mkdtemp(prefix="c15-")
     try:
         for dn in DICTS:
@@ -904,9 +1177,7 @@ def parser_checks(ctx, drv):
             stats["views_compared"] += 1
             if d:
                 dis.append({"input": dn, "model": "reference reader", "impl": d, "what": "parsed dictionary differs"})
-            n, dd, _ = resolver_check(drv, ld.path, dn)
-            stats["resolver_lines"] += n
-            dis += dd
+            jobs.append(resolver_job(ld.path, dn))
         # permutations of <components> (only FIX44.xml has components; TT's list is empty)
         ld = load("FIX44.xml")
         ref_view = X.ref_view(ld.ref)
@@ -928,13 +1199,12 @@ def parser_checks(ctx, drv):
             if d:
                 dis.append({"input": f"perm#{i}({mode})", "model": "reference reader (original order)", "impl": d,
                             "what": "parse result depends on declaration order"})
-            d2 = X.diff_views(ref_view, X.ref_view(X.RefSchema(p)))
-            if d2:
-                raise RuntimeError(f"reference reader is order dependent: {d2}")
+            if i < ctx.n(3, 30):
+                d2 = X.diff_views(ref_view, X.ref_view(X.RefSchema(p)))
+                if d2:
+                    raise RuntimeError(f"reference reader is order dependent: {d2}")
             if i < ctx.n(6, 30):
-                n, dd, _ = resolver_check(drv, p, f"perm#{i}({mode})")
-                stats["resolver_lines"] += n
-                dis += dd
+                jobs.append(resolver_job(p, f"perm#{i}({mode})"))
             pl = Loaded.__new__(Loaded)
             pl.lib = lib
             for c, want in zip(sample[: ctx.n(20, 60)], base_out):
@@ -949,10 +1219,9 @@ def parser_checks(ctx, drv):
                                                                     os.path.join(C.REPO, "tests", "schema_fix_simple.xml")]:
             if not os.path.exists(p):
                 continue
-            n, dd, outcome = resolver_check(drv, p, os.path.basename(p))
-            stats["resolver_lines"] += n
+            jobs.append(resolver_job(p, os.path.basename(p)))
+            outcome = jobs[-1]["outcome"]
             stats["corpus_xml"][os.path.basename(p)] = outcome
-            dis += dd
             try:
                 X.RefSchema(p)
                 ref_ok = "ok"
@@ -961,6 +1230,13 @@ def parser_checks(ctx, drv):
             if (outcome == "ok") != (ref_ok == "ok"):
                 dis.append({"input": os.path.basename(p), "model": "reference reader: " + ref_ok, "impl": outcome,
                             "what": "loadability differs"})
+        # all resolver-model jobs in ONE driver process
+        rep = drv.batch(sum((j["lines"] for j in jobs), []))
+        pos = 0
+        for j in jobs:
+            stats["resolver_lines"] += len(j["lines"])
+            dis += resolver_finish(j, rep[pos: pos + len(j["lines"])])
+            pos += len(j["lines"])
     finally:
         shutil.rmtree(tmp, ignore_errors=True)
     return stats, dis
@@ -1008,6 +1284,18 @@ def correspondence(ctx):
             if i in model_out and got != model_out[i]:
                 dis.append({"input": {"history_order": run["order"], "position": pos, "case": cases[i]},
                             "model": model_out[i], "impl": got, "what": "outcome in this validation order"})
+    hstats["construction_validations"] = 0
+    for i, r, got in construction_runs(ctx):
+        hstats["construction_validations"] += 1
+        if i in model_out and got != model_out[i]:
+            dis.append({"input": {"recipe": r, "case": cases[i]}, "model": model_out[i], "impl": got,
+                        "what": "outcome for the same message built through another sequence of container operations"})
+    hstats["interleaved_validations"] = 0
+    for i, got in interleaved_run(ctx):
+        hstats["interleaved_validations"] += 1
+        if i in model_out and got != model_out[i]:
+            dis.append({"input": {"history_order": "interleaved-dictionaries", "case": cases[i]}, "model": model_out[i],
+                        "impl": got, "what": "outcome with instances of both dictionaries alive and used alternately"})
     pstats, pdis = parser_checks(ctx, drv)
     dis += pdis
     sizes = [sum(1 for _ in _all_nodes(c["nodes"])) for c in cases]
@@ -1016,7 +1304,7 @@ def correspondence(ctx):
         depths[c["depth"]] = depths.get(c["depth"], 0) + 1
     ctx._c15_wf = wf
     return {
-        "evaluations": len(cases) + hstats["validations"] + pstats["resolver_lines"] + pstats["perm_validations"] + pstats["permutations"],
+        "evaluations": len(cases) + hstats["validations"] + hstats["construction_validations"] + hstats["interleaved_validations"] + pstats["resolver_lines"] + pstats["perm_validations"] + pstats["permutations"],
         "distinct_nontrivial": len(seen),
         "rule": "validation cases = corpus + per message type of FIX44.xml (93) and TT-FIX44.xml (40): randomly populated valid "
         "instances (dictionary-directed, nesting depth forced 0..max, every 3rd shuffled at message level) + single-fault "
@@ -1026,7 +1314,14 @@ def correspondence(ctx):
         "library components (insertion order) and expanded bodies, permutations of <components>, small malformed dictionaries. "
         "Plus history independence: targeted pairs 'value valid in field A / invalid in field B' (same datatype first, e.g. EndSeqNo=0 "
         "vs every other SEQNUM field; enumerations; across datatypes) validated A-then-B in the run and on fresh instances in both "
-        "orders, and a sample of all cases re-validated on fresh FIXSchema instances in the same, reversed and shuffled order.",
+        "orders, and a sample of all cases re-validated on fresh FIXSchema instances in the same, reversed and shuffled order, and with "
+        "instances of both dictionaries alive and used alternately. Value dimension: every value of a hand-labelled near-valid pool per "
+        "datatype (harness/c15_values.py: boundary months / days / week codes, 00, 13, w0, w6, leading zeros, signs, exponents, ...) as the "
+        "single fault (or boundary-valid value) of a minimal message, in a top-level and a group-level field of the type (every field for "
+        "rare types), plus near-misses of enumerations. Construction dimension: a sample of cases rebuilt by 5 other recipes (constructor "
+        "dict, __setitem__, set(replace=True) over a placeholder, del + set / add_group(index=0), str subclass; int / float / Decimal / "
+        "enum instead of str, int vs str tags, dict vs container items). Size: 300 / 1500 items in one group, all groups multiplied at "
+        "every level of the deepest message.",
         "samples": [{"case": cases[i], "impl": impl[i]} for i in _sample_idx(len(cases))],
         "exhaustive": False,
         "branches": {"outcome_by_class": dict(sorted(branches.items())), "schemaWF": wf, "parser": pstats, "history": hstats},
@@ -1103,6 +1398,19 @@ def oracle(ctx, disagreements, broken):
             cases.append(d["input"])
     cases += build_cases(ctx)
     impl = [None] * (len(cases) - len(build_cases(ctx))) + list(impl_all(ctx))
+    ctx._c15_oracle_pass = getattr(ctx, "_c15_oracle_pass", 0) + 1
+    later_pass = ctx._c15_oracle_pass > 1
+    if later_pass:
+        # the harness runs the oracle again under another process-wide configuration (DEBUG logging): the
+        # implementation is executed again on a sample (targeted cases + random) instead of reusing the outcomes
+        rng2 = random.Random(f"C15-oracle-pass/{ctx.seed}/{ctx._c15_oracle_pass}")
+        base = len(cases) - len(build_cases(ctx))
+        pick = [k for k in range(base, len(cases)) if cases[k]["cls"].split(":")[0] in
+                ("history-valid-here", "history-invalid-there", "value-pool-valid", "value-pool-invalid", "corpus")]
+        pick += rng2.sample(range(base, len(cases)), min(len(cases) - base, ctx.n(1500, 15000)))
+        keep = set(pick)
+        cases = cases[:base] + [cases[k] for k in sorted(keep)]
+        impl = [None] * len(cases)
     if broken:
         # search harder: more instances with fresh randomness
         rng = random.Random(f"C15-oracle/{ctx.seed}")
@@ -1124,6 +1432,14 @@ def oracle(ctx, disagreements, broken):
         r = classify(ld, c, il)
         if r:
             failures.append({"signature": r[0], "what": r[1], "input": c, "expected": r[2], "observed": il})
+    if later_pass:
+        by_sig = {}
+        for f in failures:
+            by_sig[f["signature"]] = by_sig.get(f["signature"], 0) + 1
+        ctx.oracle_stats = {"evaluations": n, "failures": len(failures), "by_signature": by_sig, "pass": ctx._c15_oracle_pass,
+                            "note": "implementation re-executed on a sample; history / construction / parser clauses as in pass 1"}
+        failures.sort(key=lambda f: (f["signature"], len(json.dumps(f["input"], default=str))))
+        return failures
     # history clause: the verdict on a message is the same whatever was validated before on that instance
     allc = build_cases(ctx)
     main_out = impl_all(ctx)
@@ -1182,6 +1498,34 @@ def oracle(ctx, disagreements, broken):
                                            "history": [{"msgtype": h["msgtype"], "nodes": h["nodes"]} for h in hist],
                                            "order": run["order"]},
                                  "expected": alone + " (fresh instance)", "observed": got2})
+    # construction clause: the verdict is a function of what the message contains, not of how it was assembled
+    seen_c = set()
+    for i, r, got in construction_runs(ctx):
+        n += 1
+        if got != main_out[i] and (r, got, main_out[i]) not in seen_c:
+            c = allc[i]
+            small = min((allc[k] for k, r2, g2 in construction_runs(ctx) if r2 == r and g2 != main_out[k] and g2 == got),
+                        key=lambda x: len(json.dumps(x["nodes"])))
+            seen_c.add((r, got, main_out[i]))
+            held = "?"
+            try:
+                held = dump_container(build_fix(small["msgtype"], small["nodes"], r))
+            except Exception as e:  # noqa
+                held = "build raised " + type(e).__name__
+            failures.append({"signature": f"C15-verdict-depends-on-construction:{r}",
+                             "what": "the same message, assembled through another sequence of container operations / with values the API "
+                                     "converts to str, gets another verdict",
+                             "input": {"dict": small["dict"], "msgtype": small["msgtype"], "nodes": small["nodes"], "recipe": r},
+                             "expected": impl_outcome(load(small["dict"]), small["msgtype"], small["nodes"]) + " (as when built with set(tag, str))",
+                             "observed": {"outcome": impl_outcome(load(small["dict"]), small["msgtype"], small["nodes"], r),
+                                          "container_holds": held}})
+    for i, got in interleaved_run(ctx):
+        n += 1
+        if got != main_out[i] and i not in seen_hist:
+            seen_hist.add(i)
+            failures.append({"signature": "C15-verdict-depends-on-other-instance",
+                             "what": "verdict differs when an instance over the other dictionary is alive and used in between",
+                             "input": allc[i], "expected": main_out[i], "observed": got})
     # parser clause: load result equals the dictionary, for every declaration order
     tmp = tempfile.mkdtemp(prefix="c15o-")
     try:
@@ -1241,6 +1585,11 @@ def replay(ctx, rp):
         print("replay:", inp["dict"], inp["msgtype"], json.dumps(inp["nodes"])[:200], "alone ->", alone,
               "| after", len(inp["history"]), "earlier validation(s), first:", json.dumps(inp["history"][0])[:200], "->", after)
         return alone != after
+    if "recipe" in inp:
+        a = impl_outcome(ld, inp["msgtype"], inp["nodes"])
+        b = impl_outcome(Fresh(ld), inp["msgtype"], inp["nodes"], inp["recipe"])
+        print("replay:", inp["dict"], inp["msgtype"], json.dumps(inp["nodes"])[:200], "set(tag,str) ->", a, "|", inp["recipe"], "->", b)
+        return a != b
     il = impl_outcome(ld, inp["msgtype"], inp["nodes"])
     r = classify(ld, inp, il)
     print("replay:", inp["dict"], inp["msgtype"], json.dumps(inp["nodes"])[:300], "->", il, r[0] if r else None)
